@@ -89,9 +89,12 @@ def check(case):
         return res
     with specmod.quiet():
         I = ModelCSimInterface(M)
-        I.py_prep_deterministic_simulation()
         Sf = SafeModelCSimInterface(M)
-        Sf.py_prep_deterministic_simulation()
+        # an interface is prepared again before every deterministic run it is used for (py_simulate_model does so):
+        # preparing it 1..3 times must give the same derivative
+        for _ in range(1 + case.get("extra_preps", 0)):
+            I.py_prep_deterministic_simulation()
+            Sf.py_prep_deterministic_simulation()
     props = M.get_propensities()
     p = np.array(M.get_parameter_values(), dtype=float)
     for pt in case["points"]:
@@ -174,7 +177,7 @@ def cases(draw):
         state = {s: draw(gen.fl(0.05 if positive else 0.0, 10)) if draw(st.integers(0, 3)) else (1.0 if positive else 0.0)
                  for s in sp["species"]}
         points.append({"state": state, "t": draw(st.sampled_from([0.0, 0.5, 2.0, 5.0]))})
-    return {"kind": "model", "spec": sp, "points": points}
+    return {"kind": "model", "spec": sp, "points": points, "extra_preps": draw(st.sampled_from([0, 0, 1, 2]))}
 
 
 def search(ctx):
